@@ -103,7 +103,7 @@ func runC10(tier string) int {
 	}
 	col.Assume = []string{"time.Now() frozen by a build-overlay of GOROOT/src/time (monotonic clock, timers untouched)", "compaction legal only up to the 48h lazy margin ahead of the log clock (the code's documented clock-skew tolerance)",
 		"mem and pebble do not wire the compaction filter; the sweep calls the real filter on every stored key"}
-	if expiredStates == 0 {
+	if expiredStates == 0 && col.NumViolationSigs() == 0 {
 		fmt.Println("INFRA: vacuous (no state with an expired key)")
 		col.Finish()
 		return 2
